@@ -66,6 +66,8 @@ def obligations(tier):
            '6x4x3x3 = 216 vectors (content kinds incl. all-zero files)', [REPO_FUNCS['rs'], REPO_FUNCS['wp']], module=H, func='e_pre', timeout=600, shards=2),
         Ob('E.cfg', 'E', 'cipher/hash/encryption x chunk bounds x concurrency {1,2,5} x size', '5x5x3x3 = 225 vectors',
            [REPO_FUNCS['sn'], REPO_FUNCS['rs']], module=H, func='e_cfg', timeout=600, shards=2),
+        Ob('E.names', 'E', '24 unusual but legal file names (look-alikes of temporaries such as x_k3j9x0aa.tmp, hidden files, control characters, 255-byte names, names of repository areas, shell metacharacters, non-ASCII), top level and below a sub-directory, reached through a directory argument / one by one / as explicit files: all recorded and restored',
+           '4 name groups x 3 argument modes x concurrency {1,3} = 24', [REPO_FUNCS['sn'], REPO_FUNCS['rs'], 'replicat.utils.fs:flatten_paths', 'replicat.utils.fs:iterative_scandir'], module=H, func='e_names', timeout=600),
         Ob('E.slow', 'E', 'a store whose chunk uploads take 30 ms (longer than the 25 ms queue time-out of the producer) with 3..5 times more chunks than the queue holds: round trip exact',
            '2 concurrency x 2 configurations x 2 sizes = 8 (real time, ~2 s each)', [REPO_FUNCS['sn'], REPO_FUNCS['rs']], module=H, func='e_slow', timeout=600, shards=4),
         Ob('E.piece', 'E', 'file sizes at and around multiples of the 16 MiB read-piece size (one or two such files in the stream), random and all-zero content, encrypted or not, 64 KiB..1 MiB chunks',
